@@ -51,6 +51,8 @@ class Point:
         return self.inputs[k]
 
     def symv(self, name):
+        if name not in self.syms and name.startswith("$chunk"):
+            self.syms[name] = float(self.rng.randint(1, 2))   # a block size: small, so that few rows span several blocks
         if name not in self.syms:
             v = self.rng.uniform(0.2, 2.5)
             if name not in self.positive_syms and self.rng.random() < 0.3:
@@ -115,6 +117,12 @@ def space_rows(key, pt: Point):
                 else:
                     pt.ivs[iv] = v
         return out
+    if isinstance(key, tuple) and len(key) == 4 and key[0] == "strided":
+        # trips 0 .. ceil((hi - lo)/step) - 1 of range(lo, hi, step)
+        lo, hi, st = (ev(x, pt) for x in key[1:])
+        if st <= 0:
+            raise NotEvaluable("non-positive range step")
+        return list(range(max(0, int(math.ceil((hi - lo) / st - 1e-9)))))
     if isinstance(key, tuple) and len(key) == 4 and key[0] == "slice":
         # positions lo … hi-1 of the parent space (the index variable keeps the parent's numbering)
         lo, hi = int(round(ev(key[2], pt))), int(round(ev(key[3], pt)))
@@ -141,6 +149,8 @@ def ev(e: Expr, pt: Point):
     if t == "size":
         k_ = e[1]
         if isinstance(k_, tuple) and len(k_) == 3 and k_[0] == "sub" and isinstance(k_[2], Expr):
+            return float(len(space_rows(k_, pt)))
+        if isinstance(k_, tuple) and len(k_) == 4 and k_[0] in ("strided", "slice"):
             return float(len(space_rows(k_, pt)))
         return float(pt.size(k_))
     if t == "iv":
